@@ -9,14 +9,16 @@
 (*          `deps: &impl Bound`, "concrete" `deps: &Conc`, "nodeps"        *)
 (*  params  further parameters: "i32" "string" (moved) "str" (borrowed)    *)
 (*          "tuple" (destructured, two leaves) "wild" (`_`) "gen"          *)
-(*          (generic T: Debug)                                             *)
+(*          (generic T: Debug) "samename" / "liftname" (see below)         *)
 (*  opt     option set: "none" "unimock" (mock_api + unimock) "mockall"    *)
 (*          "export" "nosend" (?Send)                                      *)
 (***************************************************************************)
 EXTENDS TLC, Sequences, Naturals, FiniteSets, SequencesExt
 
 DepsKinds == {"genref", "genval", "implref", "concrete", "nodeps"}
-ParamKinds == {"i32", "string", "str", "tuple", "wild", "gen"}
+\* "samename": a plain parameter named like the function itself; "liftname": a destructured parameter whose single
+\* binding is named like the function (both must not end up shadowing the callee in the delegating body)
+ParamKinds == {"i32", "string", "str", "tuple", "wild", "gen", "samename", "liftname"}
 OptSets == {"none", "unimock", "mockall", "export", "nosend"}
 
 Leaves(k) == IF k = "tuple" THEN 2 ELSE 1
@@ -29,8 +31,9 @@ WellFormed(p) ==
   /\ (p.mode = "fn" => p.nfn = 1) /\ (p.mode = "mod" => p.nfn \in 2..3)
   /\ (p.deps = "concrete" => p.mode = "fn" /\ p.opt \in {"none", "nosend"})     \* concrete deps: fn only; mocks are C05/C11's
   /\ (p.opt = "nosend" => p.async)
-  /\ (p.opt = "unimock" => ~(\E i \in DOMAIN p.params : p.params[i] = "gen") /\ p.deps # "genval")
-  /\ (p.opt = "mockall" => ~p.async /\ ~(\E i \in DOMAIN p.params : p.params[i] \in {"gen", "str"}) /\ p.deps # "genval")
+  /\ Cardinality({ i \in DOMAIN p.params : p.params[i] \in {"samename", "liftname"} }) <= 1     \* one binding of that name at most
+  /\ (p.opt = "unimock" => ~(\E i \in DOMAIN p.params : p.params[i] \in {"gen", "liftname"}) /\ p.deps # "genval")
+  /\ (p.opt = "mockall" => ~p.async /\ ~(\E i \in DOMAIN p.params : p.params[i] \in {"gen", "str", "liftname"}) /\ p.deps # "genval")
 
 FnName(i) == "f" \o ToString(i)
 \* Level 2 (Codegen, fn_delegation_codegen.rs gen_delegating_fn_item): the body of method i
